@@ -193,3 +193,22 @@ def run(F, rep):
     on1x = [c for c in calls if any(t and is_1x(cn) for cn, t in (ff(lc).conds_at(c) or []))]
     allp = [c for f in pfs for c in f.walk() if c.get('k') == 'Call' and c.get('fn') in ('removeNamespaceDefinition', 'addNamespaceDefinition')]
     rep.check(bool(on1x) or bool(allp), 'C14.M1', 'loadComponent|math-namespace-rewrite', lc.where(), 'no namespace rewrite of 1.x math remains', '%d rewrite calls (%d on the 1.x path of loadComponent)' % (len(allp) + len(calls), len(on1x)))
+
+    # ------------------------------------------------------------------ A: flags gathered over XML children
+    rep.rule('C14.A1', 'in parser.cpp a flag that is gathered over a loop of XML nodes and consulted afterwards is only ever raised inside the loop (an assignment `flag = <test of this node>` lets the LAST node decide: '
+                       'a 1.x <group> with relationship_ref encapsulation followed by another relationship_ref is silently dropped); an assignment under a test of one attribute name is exempt, an element has at most one attribute of a name')
+    from engines import accumulating_flags, enclosing_conditions as _encl
+    n_a = 0
+    for g in F.funcs.values():
+        if not g.file.endswith('/parser.cpp'):
+            continue
+        for v, loop, x, mono in accumulating_flags(g):
+            n_a += 1
+            if not mono:
+                per_attr = any(br == 'then' and 'isType(' in render(cnd) for cnd, br, st in _encl(g, x) if any(y is st for y in walk(loop)) or True)
+                if per_attr:
+                    rep.exempt('C14.A1', '%s|%s' % (g.short.split('::')[-1], render(x)[:50]), 'assigned under a test of one attribute name (at most one such attribute per element)')
+                    continue
+            rep.check(mono, 'C14.A1', '%s|%s' % (g.short.split('::')[-1], render(x)[:50]), g.where(x), '%s: `%s` inside the loop lets the last XML node decide %s, which is consulted after the loop' % (g.short, render(x)[:60], v['n']), 'only raised')
+    if n_a < 15:
+        raise AnalysisBroken('C14.A1: only %d accumulating flags found in parser.cpp (19 confirmed)' % n_a)
